@@ -54,6 +54,50 @@ pub fn check(env: &Env, p: Prof, s: &str, rec: &mut Rec) {
             },
         );
     }
+    // the same again after unrelated calls (a memo of "the last result" must not be what kept it stable), and the
+    // result handed to the other profiles as stored strings are: straight after it was produced, then re-enforced
+    // there after unrelated calls
+    let flush = || {
+        let _ = api::enforce(Prof::Opaque, "e\u{301}\u{FB01}");
+        let _ = api::enforce(Prof::Nick, "\u{FF21}\u{30A} \u{2163}");
+    };
+    let mut drift_after = |q: Prof, stored: &str, first: &str, rec: &mut Rec| {
+        let later = api::enforce(q, stored);
+        rec.eval();
+        let bad = match &later {
+            Out::Ok(x) => x != stored,
+            Out::Err(_) => false,
+            Out::Panic(_) => true,
+        };
+        if bad {
+            rec.violation(
+                &format!("enforce-output-drifts-after-other-calls:{}", q.name()),
+                Witness {
+                    op: format!("{}::enforce of a stored result (enforce of \"{}\"), after unrelated calls", q.name(), util::esc(first)),
+                    case: format!("profile={};label={}", p.name(), util::esc(s)),
+                    expected: format!("Ok(\"{}\") or an error", util::esc(stored)),
+                    observed: api::show_r(&later),
+                },
+            );
+        }
+    };
+    flush();
+    drift_after(p, out, s, rec);
+    if out != s {
+        for q in ALL_PROF {
+            if q == p {
+                continue;
+            }
+            let _ = api::enforce(p, s); // `out` is again the string most recently produced
+            let x = api::enforce(q, out);
+            rec.eval();
+            if let Out::Ok(x) = x {
+                rec.count("chained:result-of-one-profile-accepted-by-another");
+                flush();
+                drift_after(q, &x, out, rec);
+            }
+        }
+    }
     if out != s {
         let k = match &again {
             Out::Ok(_) => "changed:stable",
